@@ -1095,10 +1095,11 @@ def check_grouping_cursor(ctx, unit, rule="B.grouping-cursor"):
 
 
 def const_bool_arg(n):
-    n = n.strip()
-    if n.kind == "CXXBoolLiteralExpr":
-        return bool(n.get("bv"))
-    return None
+    x = std_unwrap(n)           # (through parameters of folded helpers and closures)
+    if x.kind == "CXXBoolLiteralExpr":
+        return bool(x.get("bv"))
+    v = flow.const_fold(n.fn, n)
+    return None if v is None else bool(v)
 
 
 def check_pop_arg(ctx, unit):
@@ -1165,20 +1166,61 @@ def check_pop_arg(ctx, unit):
             if n.kind == "UnaryOperator" and n.op == "++":
                 continue
             if n.kind == "BinaryOperator" and n.op == "=":
-                # must be dominated by a comparison between num_args and the assigned quantity
-                ok = False
-                for cond, truth in flow.facts_at(f, n.id):
-                    c = cond.strip()
-                    if c.kind == "BinaryOperator" and c.op in ("<", "<=", ">", ">=") and \
-                            any(x.kind == "MemberExpr" and x.m == "num_args" for x in c.walk()) and \
-                            any(is_pos(x) for x in c.walk()):
-                        ok = True
+                # the new value is at least the old one: as linear forms over the count and the position, with once-
+                # initialised locals expanded (`pos = num_args; num_args = pos + 1`) and the dominating comparisons as
+                # hypotheses (`if(!(wanted < num_args)) num_args = wanted + 1`)
+                ok = _grows(f, n.children[1], "num_args")
                 if not ok:
                     bad.append(n.loc)
         ctx.inst("E.arg-count-monotone", "frg::pop_arg<%s>" % ta, not bad and nw > 0, bad[0] if bad else f.loc,
                  ("num_args is overwritten at %s without a test that it grows: a directive naming a lower position shrinks "
                   "the count and the next positional directive reads past the supplied arguments" % bad[0]) if bad else
                  "%d writes of num_args, all increments or guarded" % nw, f)
+
+
+def _grows(f, new_value, field):
+    """new_value >= current value of the field `field`, provably: difference of linear forms is a non-negative constant,
+    possibly after subtracting a form that a dominating comparison makes non-negative."""
+    from .poly import Poly, to_poly
+    from . import rules_atomic as RA
+    inits = RA.local_inits(f)
+
+    def leaf(x, depth=0):
+        x = std_unwrap(x)
+        if x.kind == "DeclRefExpr" and x.get("local"):
+            d = x.d["d"]
+            if d in inits and not RA._reassigned(f, d) and depth < 6:
+                r = to_poly(inits[d], lambda y: leaf(y, depth + 1))
+                if r is not None:
+                    return r
+            return Poly.sym("v#%d" % d)
+        if x.kind == "MemberExpr":
+            return Poly.sym("." + x.m)
+        if x.kind in ("ImplicitCastExpr", "CStyleCastExpr", "CXXStaticCastExpr", "ParenExpr") and x.children:
+            return to_poly(x.children[0], lambda y: leaf(y, depth))
+        return Poly.sym("e:" + canon(x))
+    T = to_poly(new_value, leaf)
+    if T is None:
+        return False
+    T = T - Poly.sym("." + field)
+
+    def const_nonneg(p_):
+        return all(k == () for k in p_.t) and p_.t.get((), 0) >= 0
+    if const_nonneg(T):
+        return True
+    for cond, truth in flow.facts_at(f, new_value.id if new_value.id in f.positions() else f.parent(new_value).id):
+        rel = flow.fact_relation(cond, truth)
+        if rel is None:
+            continue
+        a, op, b = rel
+        pa, pb = to_poly(a, leaf), to_poly(b, leaf)
+        if pa is None or pb is None:
+            continue
+        forms = [pb - pa - Poly.const(1)] if op == "<" else [pb - pa] if op == "<=" else [pb - pa, pa - pb] if op == "==" else []
+        for F in forms:
+            if const_nonneg(T - F):
+                return True
+    return False
 
 
 # ---- T.field-layout: the integer field is laid out as ISO C prescribes (structural clauses) ------------------------------
@@ -1304,21 +1346,65 @@ def check_field_layout(ctx, unit):
                    and not (n.args[0].get("t") or "").rstrip().endswith("*") and n.id in pos]
         digit_ev = [n for n in appends if std_unwrap(n.args[0]).kind == "ArraySubscriptExpr"]
 
+        inits0 = RA.local_inits(f)
+
+        def values_of(x, depth=0):
+            """constants an expression may evaluate to (None in the set: something else): through locals (initialiser and
+            assignments), parameters of folded helpers, conditional arms and the returns of folded helpers"""
+            if depth > 8:
+                return {None}
+            x = x.strip()
+            if x.d.get("inlined") and x.d.get("rets"):
+                out = set()
+                for r_ in x.d["rets"]:
+                    out |= values_of(f.node(r_), depth + 1)
+                return out
+            if x.kind == "ConditionalOperator" and len(x.children) == 3:
+                return values_of(x.children[1], depth + 1) | values_of(x.children[2], depth + 1)
+            if x.kind == "DeclRefExpr":
+                bm = f.bind_map()
+                if x.d["d"] in bm:
+                    return values_of(f.node(bm[x.d["d"]]), depth + 1)
+                if x.get("local"):
+                    out = set()
+                    if x.d["d"] in inits0:
+                        out |= values_of(inits0[x.d["d"]], depth + 1)
+                    for w in f.all_nodes():
+                        if w.kind == "BinaryOperator" and w.op == "=" and w.children[0].strip().kind == "DeclRefExpr" \
+                                and w.children[0].strip().d["d"] == x.d["d"]:
+                            out |= values_of(w.children[1], depth + 1)
+                    return out or {None}
+                return {None}
+            c = x.cv()
+            if c is not None:
+                return {c}
+            if x.kind in ("ImplicitCastExpr", "ParenExpr", "CStyleCastExpr", "CXXStaticCastExpr", "CXXFunctionalCastExpr") and x.children:
+                return values_of(x.children[0], depth + 1)
+            return {None}
+
         def is_sign(n):
-            x = std_unwrap(n.args[0])
-            if x.cv() == ord("-") and x.kind not in ("DeclRefExpr",):
-                return True
-            if x.kind == "DeclRefExpr" and x.get("local"):
-                for w in f.all_nodes():
-                    if w.kind == "BinaryOperator" and w.op == "=" and w.children[0].strip().kind == "DeclRefExpr" \
-                            and w.children[0].strip().d["d"] == x.d["d"] and w.children[1].strip().cv() == ord("-"):
-                        return True
-            return False
+            return ord("-") in values_of(n.args[0])
         sign_ev = [n for n in appends if is_sign(n)]
-        # padding events: character appends inside a loop whose dominating decisions mention the width
+
+        def refs_of(cond):
+            """declarations a condition depends on, through once-initialised locals and parameters of folded helpers"""
+            out, work, hops = set(), [y for y in cond.walk() if y.kind == "DeclRefExpr"], 0
+            bm = f.bind_map()
+            while work and hops < 400:
+                y = work.pop(); hops += 1
+                d = y.d["d"]
+                if d in out:
+                    continue
+                out.add(d)
+                if d in bm:
+                    work += [z for z in f.node(bm[d]).walk() if z.kind == "DeclRefExpr"]
+                elif d in inits0:
+                    work += [z for z in inits0[d].walk() if z.kind == "DeclRefExpr"]
+            return out
+        # padding events: character appends inside a loop whose dominating decisions depend on the width
         def mentions_width(n):
             for cond, truth in flow.facts_at(f, n.id):
-                if any(y.kind == "DeclRefExpr" and y.d["d"] == wp[0]["d"] for y in cond.walk()):
+                if wp[0]["d"] in refs_of(cond):
                     return True
             return False
         pad_ev = [n for n in appends if pos[n.id][0] in cyc and n not in digit_ev and not is_sign(n) and mentions_width(n)]
@@ -1328,29 +1414,20 @@ def check_field_layout(ctx, unit):
         # the length compared with the width depends on the sign
         signdeps = set()
         for s_ in sign_ev:
-            x = std_unwrap(s_.args[0])
+            x = s_.args[0].strip()
             if x.kind == "DeclRefExpr":
                 signdeps.add(x.d["d"])
+                signdeps.add(f.bind_map().get(x.d["d"], -1) and x.d["d"])
             for cond, truth in flow.facts_at(f, s_.id):
                 for y in cond.walk():
                     if y.kind == "DeclRefExpr":
                         signdeps.add(y.d["d"])
-        inits = RA.local_inits(f)
         lenvars = set()
         for p_ in pad_ev:
             for cond, truth in flow.facts_at(f, p_.id):
-                if not any(y.kind == "DeclRefExpr" and y.d["d"] == wp[0]["d"] for y in cond.walk()):
-                    continue
-                work = [y for y in cond.walk() if y.kind == "DeclRefExpr"]
-                hops = 0
-                while work and hops < 200:
-                    y = work.pop(); hops += 1
-                    d = y.d["d"]
-                    if d in lenvars:
-                        continue
-                    lenvars.add(d)
-                    if d in inits:
-                        work += [z for z in inits[d].walk() if z.kind == "DeclRefExpr"]
+                rs = refs_of(cond)
+                if wp[0]["d"] in rs:
+                    lenvars |= rs
         if not (lenvars & signdeps):
             problems.append("the length compared with the width does not depend on whether a sign is printed: a signed field is one "
                             "character wider than asked for")
@@ -1420,3 +1497,105 @@ def check_star_width(ctx, unit, rule="B6.star-width-nonneg"):
         ctx.inst(rule, "frg::printf_format: '*' width", not bad, (bad[0] if bad else f.loc),
                  ("the agent is called at %s with a width taken from the argument list that was never tested for being negative" % bad[0])
                  if bad else "a negative '*' width is re-assigned before any conversion sees it", f)
+
+
+# ---- every directive starts from fresh options -------------------------------------------------------------------------
+
+def check_directive_state(ctx, unit, rule="I.directive-options-fresh", sticky=("dollar_arg_pos",)):
+    """ISO C: flags, width, precision and conversion belong to ONE directive; the only thing a directive inherits from the
+    ones before it is positional mode.  In printf_format the options object the agent receives is therefore either declared
+    inside the directive loop (a fresh object per directive), or every field of format_options that the parser writes at all,
+    other than the positional-mode flag, is assigned on every path from the head of the loop to each call of the agent (a must-assigned analysis over the
+    loop body, restarted at the loop head)."""
+    ctx.rule(rule, "printf_format: the options handed to the agent are a fresh object per directive, or every field except the "
+             "positional-mode flag is re-assigned on every path from the loop head to the agent (no width, precision or flag of an "
+             "earlier directive survives into the next)", 1)
+    fs = unit.fns(uq="frg::printf_format")
+    if not fs:
+        raise AnalysisBroken("anchor vanished: printf_format")
+    recs = [r for r in unit.records if r["uq"] == "frg::format_options"]
+    if not recs:
+        raise AnalysisBroken("anchor vanished: record frg::format_options")
+    fields = [fl["n"] for fl in recs[0]["fields"]]
+    for f in fs[:1]:
+        agent_calls = [n for n in f.events() if n.is_call() and n.kind == "CXXOperatorCallExpr" and n.callee and n.callee.get("op") == "()"
+                       and len(n.args) >= 3]
+        if not agent_calls:
+            raise AnalysisBroken("anchor vanished: agent calls in printf_format")
+        loops = [lp for lp in flow.natural_loops(f) if all(lp.contains(c) for c in agent_calls)]
+        if not loops:
+            raise AnalysisBroken("anchor vanished: directive loop of printf_format")
+        lp = max(loops, key=lambda l: len(l.body))
+        # the options objects the agent receives
+        odids = set()
+        for c in agent_calls:
+            for a in c.args:
+                x = std_unwrap(a)
+                for y in x.walk():
+                    if y.kind == "DeclRefExpr" and y.get("local") and "format_options" in (y.get("t") or ""):
+                        odids.add(y.d["d"])
+        if not odids:
+            raise AnalysisBroken("anchor vanished: format_options argument of the agent calls")
+        bad = []
+        for od in sorted(odids):
+            decl = [n for n in f.all_nodes() if n.kind == "DeclStmt" and any(d.get("d") == od for d in n.get("decls", []))]
+            if decl and lp.contains(decl[0]):
+                continue        # declared in the loop: constructed anew for each directive
+
+            def gen(n, od=od):
+                out = set()
+                tgt = None
+                if n.kind in ("BinaryOperator",) and n.op == "=":
+                    tgt = n.children[0]
+                elif n.kind == "CXXOperatorCallExpr" and n.callee and n.callee.get("op") == "=" and n.args:
+                    tgt = n.args[0]
+                elif n.kind == "CXXMemberCallExpr" and n.callee and n.callee["n"] in ("reset", "emplace") and n.child("obj") is not None:
+                    tgt = n.child("obj")
+                if tgt is None:
+                    return out
+                t = std_unwrap(tgt)
+                if t.kind == "MemberExpr" and t.children:
+                    b = std_unwrap(t.children[0])
+                    if b.kind == "DeclRefExpr" and b.d.get("d") == od:
+                        out.add(t.get("m"))
+                elif t.kind == "DeclRefExpr" and t.d.get("d") == od:
+                    out |= set(fields)
+                return out
+            # must-assigned over the loop body, IN[header] = {}
+            allf = frozenset(fields)
+            gens = {b: [(n, gen(n)) for n in f.blocks[b].nodes()] for b in lp.body}
+            OUT = {b: allf for b in lp.body}
+            at_call = {}
+            changed, rounds = True, 0
+            while changed and rounds < 500:
+                changed, rounds = False, rounds + 1
+                for b in sorted(lp.body):
+                    if b == lp.header:
+                        cur = set()
+                    else:
+                        ps = [p for p in f.blocks[b].preds if p in lp.body]
+                        cur = set(allf)
+                        for p in ps:
+                            cur &= OUT[p]
+                        if not ps:
+                            cur = set()
+                    for n, g in gens[b]:
+                        if any(n.id == c.id for c in agent_calls):
+                            at_call[n.id] = frozenset(cur)
+                        cur |= g
+                    if OUT[b] != frozenset(cur):
+                        OUT[b], changed = frozenset(cur), True
+            for c in agent_calls:
+                if not any(y.kind == "DeclRefExpr" and y.d.get("d") == od for a in c.args for y in a.walk()):
+                    continue
+                # (a field the parser never writes keeps its constructed value: nothing can leak through it)
+                touched = set()
+                for b in lp.body:
+                    for _n, g in gens[b]:
+                        touched |= g
+                miss = [x for x in fields if x in touched and x not in at_call.get(c.id, frozenset()) and x not in sticky]
+                if miss:
+                    bad.append("the options object lives across directives and %s %s not re-assigned on every path to the agent call at %s"
+                               % (", ".join(miss), "is" if len(miss) == 1 else "are", c.loc))
+        ctx.inst(rule, "frg::printf_format", not bad, f.loc, sorted(set(bad))[0] + ": an earlier directive's value leaks into this one" if bad else
+                 "%d agent call(s); the options object is declared inside the directive loop" % len(agent_calls), f)
